@@ -6,7 +6,7 @@ From Coq Require Import List NArith Bool.
 From Conductor Require Import Lib.Regex Lib.RegexBisim Lib.PyRegex Lib.Str
   Gen.Generated Model.Ident Proofs.IdentSpec Proofs.IdentProofs.
 Import ListNotations.
-Open Scope N_scope.
+Local Open Scope N_scope.
 
 Lemma tie_name : tie_ok name_regex doc_name_re = true.
 Proof. vm_compute. reflexivity. Qed.
